@@ -1,6 +1,7 @@
 //! C08: undo restores the document and redo the edit, for every edit history.
 //!
-//! Replay syntax (no spaces): `D,bw,bh,fontmode;L,w,h,ox,oy,flags,rw,rh,seed;…;op,arg,…;op;…`
+//! Replay syntax (no spaces): `D,bw,bh,fontmode,fullfont;L,w,h,ox,oy,flags,rw,rh,seed;…;op,arg,…;op;…`
+//!   (lines sent to the model carry the identity of the fonts as extra arguments: `D,…,initfont`, `saf,page,font` …)
 //!   layer flags: 1 hidden, 2 locked, 4 position-locked, 8 has-alpha, 16 alpha-locked; `rw x rh` = size of the raw
 //!   `lines` storage (may be larger than `w x h`: hidden content; or smaller: unmaterialised rows), `seed` = cell pattern.
 //!   ops: see `exec_op`. `u`/`r` are undo/redo steps inside the history, `ga`/`ge` open/close an atomic undo group.
@@ -84,6 +85,19 @@ impl Spec {
         }
         s
     }
+    /// the same history as the model reads it (font identities filled in)
+    fn fmt_model(&self) -> String {
+        let init = font_code(&if self.ff == 0 { cut_font() } else { BitFont::default() });
+        let mut s = format!("D,{},{},{},{},{}", self.bw, self.bh, self.fm, self.ff, init);
+        for l in &self.layers {
+            s.push_str(&format!(";L,{},{},{},{},{},{},{},{}", l.w, l.h, l.ox, l.oy, l.flags, l.rw, l.rh, l.seed));
+        }
+        for o in &self.ops {
+            s.push(';');
+            s.push_str(&op_for_model(o).fmt());
+        }
+        s
+    }
     fn parse(s: &str) -> Option<Spec> {
         let mut spec = Spec { bw: 0, bh: 0, fm: 0, ff: 0, layers: vec![], ops: vec![] };
         let mut have_doc = false;
@@ -139,6 +153,63 @@ fn mk_cell(ch: u32, fg: u32, bg: u32) -> AttributedChar {
     AttributedChar::new(char::from_u32(ch).unwrap_or('?'), TextAttribute::new(fg, bg))
 }
 
+/// cell of the `sc` op: character, colours, font page, attribute bits (8 = blink)
+fn mk_cell_full(ch: u32, fg: u32, bg: u32, page: usize, attr: u16) -> AttributedChar {
+    let mut c = mk_cell(ch, fg, bg);
+    c.attribute.set_font_page(page);
+    c.attribute.attr = attr;
+    c
+}
+
+const SAUCE_NAMES: [&str; 4] = ["IBM VGA", "IBM EGA", "Amiga Topaz 1", "nope"];
+
+thread_local! {
+    static FONT_CODES: std::cell::RefCell<Option<std::collections::HashMap<u64, i64>>> = const { std::cell::RefCell::new(None) };
+}
+
+fn cut_font() -> BitFont {
+    let mut f = BitFont::default();
+    f.glyphs.retain(|c, _| c.is_ascii_uppercase() || c.is_ascii_digit() || *c == ' ');
+    f
+}
+
+/// identity of a font for the model: ANSI font page n -> n, SAUCE name k -> 1000 + k, `BitFont::default()` -> 5000, the
+/// cut-down default -> 5001; fonts with equal content share the smallest code
+fn font_code(f: &BitFont) -> i64 {
+    let sig = font_sig(f);
+    FONT_CODES.with(|m| {
+        let mut m = m.borrow_mut();
+        let map = m.get_or_insert_with(|| {
+            let mut map = std::collections::HashMap::new();
+            for n in 0..64usize {
+                if let Ok(f) = BitFont::from_ansi_font_page(n) {
+                    map.entry(font_sig(&f)).or_insert(n as i64);
+                }
+            }
+            for (k, name) in SAUCE_NAMES.iter().enumerate() {
+                if let Ok(f) = BitFont::from_sauce_name(name) {
+                    map.entry(font_sig(&f)).or_insert(1000 + k as i64);
+                }
+            }
+            map.entry(font_sig(&BitFont::default())).or_insert(5000);
+            map.entry(font_sig(&cut_font())).or_insert(5001);
+            map
+        });
+        map.get(&sig).copied().unwrap_or(9999)
+    })
+}
+
+/// the op as the model reads it: font operations get the identity of their font appended (-1 = no such font)
+fn op_for_model(op: &Op) -> Op {
+    let code = |r: icy_engine::EngineResult<BitFont>| r.map(|f| font_code(&f)).unwrap_or(-1);
+    let c = match op.name.as_str() {
+        "saf" | "aaf" | "af" | "sf" => code(BitFont::from_ansi_font_page(op.u(0))),
+        "ssf" => code(BitFont::from_sauce_name(SAUCE_NAMES[op.u(0) % 4])),
+        _ => return op.clone(),
+    };
+    Op::new(&op.name, &[op.arg(0), c])
+}
+
 fn build(spec: &Spec) -> EditState {
     let mut buf = Buffer::new((spec.bw.max(0), spec.bh.max(0)));
     buf.font_mode = match spec.fm {
@@ -150,9 +221,7 @@ fn build(spec: &Spec) -> EditState {
     if spec.ff == 0 {
         // flip_x/flip_y build an O(glyphs^2) table on every call: most documents carry font 0 cut down to 37 glyphs
         // (none of them has a flip partner), `ff=1` documents keep the full font
-        let mut f = BitFont::default();
-        f.glyphs.retain(|c, _| c.is_ascii_uppercase() || c.is_ascii_digit() || *c == ' ');
-        buf.set_font(0, f);
+        buf.set_font(0, cut_font());
     }
     buf.layers.clear();
     for (i, l) in spec.layers.iter().enumerate() {
@@ -212,7 +281,7 @@ fn clip_data(w: i32, h: i32, x: i32, y: i32, seed: u32) -> Vec<u8> {
 }
 
 fn is_edit(name: &str) -> bool {
-    !matches!(name, "u" | "r" | "cl" | "cp" | "mm" | "ga" | "ge")
+    !matches!(name, "u" | "r" | "cl" | "clp" | "cp" | "ca" | "mm" | "ga" | "ge")
 }
 
 fn exec_op(st: &mut EditState, guards: &mut Vec<AtomicUndoGuard>, op: &Op) -> Res {
@@ -258,15 +327,30 @@ fn exec_op(st: &mut EditState, guards: &mut Vec<AtomicUndoGuard>, op: &Op) -> Re
                 st.set_current_layer(op.u(0));
                 Ok(())
             }
+            "clp" => {
+                // what the UI does after a paste: the floating layer becomes the current one
+                if let Some(i) = st.get_buffer().layers.iter().position(|l| l.role.is_paste()) {
+                    st.set_current_layer(i);
+                }
+                Ok(())
+            }
             "cp" => {
                 st.get_caret_mut().set_position(Position::new(op.i(0), op.i(1)));
+                Ok(())
+            }
+            "ca" => {
+                // caret attribute (set_ice_mode converts it too; it is editor state outside the document)
+                let mut a = TextAttribute::new(op.u(0) as u32, op.u(1) as u32);
+                a.set_is_blinking(op.arg(2) != 0);
+                a.set_font_page(st.get_caret().get_font_page());
+                st.get_caret_mut().set_attr(a);
                 Ok(())
             }
             "mm" => {
                 st.set_mirror_mode(op.arg(0) != 0);
                 Ok(())
             }
-            "sc" => e(st.set_char((op.i(0), op.i(1)), mk_cell(op.u(2) as u32, op.u(3) as u32, op.u(4) as u32))),
+            "sc" => e(st.set_char((op.i(0), op.i(1)), mk_cell_full(op.u(2) as u32, op.u(3) as u32, op.u(4) as u32, op.u(5), op.u(6) as u16))),
             "sci" => e(st.set_char((op.i(0), op.i(1)), AttributedChar::invisible())),
             "sw" => e(st.swap_char((op.i(0), op.i(1)), (op.i(2), op.i(3)))),
             "al" => e(st.add_new_layer(op.u(0))),
@@ -330,7 +414,7 @@ fn exec_op(st: &mut EditState, guards: &mut Vec<AtomicUndoGuard>, op: &Op) -> Re
             "an" => e(st.anchor_layer()),
             "afl" => {
                 // only meaningful on a freshly pasted layer (that is how the UI uses it)
-                let fresh = Layer::from_clipboard_data(&clip_data(0, 0, 0, 0, 0)).map(|l| l.properties.title.clone()).unwrap_or_default();
+                let fresh = Layer::from_clipboard_data(&clip_data(1, 1, 0, 0, 0)).map(|l| l.properties.title.clone()).unwrap_or_default();
                 if st.get_cur_layer().map(|l| l.role.is_paste() && l.properties.title == fresh).unwrap_or(false) {
                     e(st.add_floating_layer())
                 } else {
@@ -368,7 +452,7 @@ fn exec_op(st: &mut EditState, guards: &mut Vec<AtomicUndoGuard>, op: &Op) -> Re
             "sfp" => e(st.switch_to_font_page(op.u(0))),
             "saf" => e(st.set_ansi_font(op.u(0))),
             "aaf" => e(st.add_ansi_font(op.u(0))),
-            "ssf" => e(st.set_sauce_font(["IBM VGA", "IBM EGA", "Amiga Topaz 1", "nope"][op.u(0) % 4])),
+            "ssf" => e(st.set_sauce_font(SAUCE_NAMES[op.u(0) % 4])),
             "af" => e(st.add_font(BitFont::from_ansi_font_page(op.u(0)).map_err(|e| e.to_string())?)),
             "sf" => e(st.set_font(BitFont::from_ansi_font_page(op.u(0)).map_err(|e| e.to_string())?)),
             "rfu" => e(st.replace_font_usage(op.u(0), op.u(1))),
@@ -392,6 +476,29 @@ fn exec_op(st: &mut EditState, guards: &mut Vec<AtomicUndoGuard>, op: &Op) -> Re
                 e(st.update_layer_properties(i, p))
             }
             "ucp" => e(st.undo_caret_position()),
+            "es" => {
+                // the two closures of `IcyVerif.Undo.enumClosure`
+                if op.arg(0) == 0 {
+                    st.enumerate_selections(|_, ch, _| Some(ch.ch as u32 % 2 == 0));
+                } else {
+                    st.enumerate_selections(|pos, _, sel| if pos.x.rem_euclid(2) == 0 { Some(!sel) } else { None });
+                }
+                Ok(())
+            }
+            "psx" => e(st.paste_sixel(icy_engine::Sixel::from_data((op.i(0).max(1), op.i(1).max(1)), 1, 1, vec![0u8; (op.i(0).max(1) * op.i(1).max(1) * 4) as usize]))),
+            "cpd" => {
+                // copy the selection of the current layer and paste it back (get_clipboard_data -> from_clipboard_data)
+                match st.get_clipboard_data() {
+                    Some(data) => e(st.paste_clipboard_data(&data)),
+                    None => Err("nothing selected".into()),
+                }
+            }
+            "prv" => {
+                // push_reverse_undo of a record written here: the reversed record's redo is the inner undo
+                let cur = st.get_buffer().get_size();
+                let inner = SizeRecord { undo_size: Size::new(op.i(0), op.i(1)), redo_size: cur };
+                e(st.push_reverse_undo("reverse", Box::new(inner), icy_engine::editor::OperationType::Unknown))
+            }
             _ => Err(format!("unknown op {}", name)),
         }
     }));
@@ -399,6 +506,28 @@ fn exec_op(st: &mut EditState, guards: &mut Vec<AtomicUndoGuard>, op: &Op) -> Re
         Ok(Ok(())) => Res::Ok,
         Ok(Err(e)) => Res::EditFail(e),
         Err(p) => Res::EditFail(format!("panic {}", panic_site(&p))),
+    }
+}
+
+/// an undo record implemented outside the crate (the `UndoOperation` trait is public): sets the buffer size
+struct SizeRecord {
+    undo_size: Size,
+    redo_size: Size,
+}
+
+impl icy_engine::editor::UndoOperation for SizeRecord {
+    fn get_description(&self) -> String {
+        "size".into()
+    }
+    fn undo(&mut self, edit_state: &mut EditState) -> icy_engine::EngineResult<()> {
+        edit_state.get_buffer_mut().set_size(self.undo_size);
+        edit_state.set_mask_size();
+        Ok(())
+    }
+    fn redo(&mut self, edit_state: &mut EditState) -> icy_engine::EngineResult<()> {
+        edit_state.get_buffer_mut().set_size(self.redo_size);
+        edit_state.set_mask_size();
+        Ok(())
     }
 }
 
@@ -466,6 +595,9 @@ fn record_type(st: &EditState, op: &Op) -> String {
         "rmf" => "RemoveFont",
         "ulp" => "UpdateLayerProperties",
         "ucp" => "ReverseCaretPosition",
+        "prv" => "ReversedUndo",
+        "es" => "SetSelectionMask",
+        "psx" | "cpd" => "Paste",
         "dr" => "DeleteRow",
         "ir" => "InsertRow",
         "dc" => "DeleteColumn",
@@ -538,15 +670,69 @@ fn model_snap(st: &EditState) -> Vec<u64> {
     let cp = st.get_caret().get_position();
     v.push(enc(cp.x));
     v.push(enc(cp.y));
+    v.push(st.get_caret().get_font_page() as u64);
+    v.push(match b.font_mode {
+        FontMode::Sauce => 0,
+        FontMode::Single => 1,
+        FontMode::Unlimited => 2,
+        FontMode::FixedSize => 3,
+    });
+    v.push(match b.ice_mode {
+        IceMode::Unlimited => 0,
+        IceMode::Blink => 1,
+        IceMode::Ice => 2,
+    });
+    v.push(match b.palette_mode {
+        PaletteMode::RGB => 0,
+        PaletteMode::Fixed16 => 1,
+        PaletteMode::Free8 => 2,
+        PaletteMode::Free16 => 3,
+    });
+    v.push(match b.get_sauce() {
+        Some(s) => 1 + s.title.to_string().trim_start_matches('T').parse::<u64>().unwrap_or(0),
+        None => 0,
+    });
+    v.push(b.palette.len() as u64);
+    for c in b.palette.color_iter() {
+        let (r, g, bl) = c.get_rgb();
+        v.push((r as u64) << 16 | (g as u64) << 8 | bl as u64);
+    }
+    let mut fonts: Vec<(usize, i64)> = b.font_iter().map(|(k, f)| (*k, font_code(f))).collect();
+    fonts.sort();
+    v.push(fonts.len() as u64);
+    for (k, c) in fonts {
+        v.push(k as u64);
+        v.push(c as u64);
+    }
     match st.get_selection() {
         Some(s) => {
-            let r = s.as_rectangle();
-            v.extend([1, enc(r.start.x), enc(r.start.y), enc(r.size.width), enc(r.size.height)]);
+            let add = match s.add_type {
+                icy_engine::AddType::Default => 0,
+                icy_engine::AddType::Add => 1,
+                icy_engine::AddType::Subtract => 2,
+            };
+            v.extend([1, enc(s.anchor.x), enc(s.anchor.y), enc(s.lead.x), enc(s.lead.y), add, matches!(s.shape, icy_engine::Shape::Lines) as u64]);
         }
         None => v.push(0),
     }
+    // the selection mask as far as it can be seen from outside: on the buffer plus a margin
+    let (mw, mh) = (b.get_width().clamp(0, 40) + 2, b.get_height().clamp(0, 40) + 2);
+    for y in 0..mh {
+        for x in 0..mw {
+            v.push(st.get_is_mask_selected((x, y)) as u64);
+        }
+    }
     for l in &b.layers {
-        v.extend([enc(l.get_width()), enc(l.get_height()), enc(l.get_offset().x), enc(l.get_offset().y), layer_flags(l), l.lines.len() as u64]);
+        let role = match l.role {
+            icy_engine::Role::Normal => 0,
+            icy_engine::Role::PastePreview => 1,
+            icy_engine::Role::PasteImage => 2,
+            icy_engine::Role::Image => 3,
+        };
+        v.extend([enc(l.get_width()), enc(l.get_height()), enc(l.get_offset().x), enc(l.get_offset().y), layer_flags(l), role]);
+        v.push(l.properties.title.len() as u64);
+        v.extend(l.properties.title.bytes().map(|b| b as u64));
+        v.push(l.lines.len() as u64);
         for line in &l.lines {
             v.push(line.chars.len() as u64);
             for c in &line.chars {
@@ -733,9 +919,24 @@ pub struct Trace {
     failure: Option<Failure>,
     /// first edit that failed (prefix + that op), for the model's edit-failure check
     failed_edit: Option<usize>,
-    /// a step the model does not cover was executed (partial scroll_area_up/down)
+    /// a step the model does not cover was executed (`outside_model`)
     unmodelled: bool,
     max_stack: usize,
+}
+
+/// steps the model does not interpret (the history is then checked by the oracle only)
+fn outside_model(st: &EditState, op: &Op) -> bool {
+    match op.name.as_str() {
+        // sixels are not in the model
+        "psx" => true,
+        // flip tables: only the cut-down font (no character has a mirror partner) is interpreted
+        "fx" | "fy" => st.get_buffer().font_iter().any(|(_, f)| font_code(f) != 5001),
+        // Shape::Lines selections are added to the mask position by position
+        "asm" => st.get_selection().map(|s| matches!(s.shape, icy_engine::Shape::Lines)).unwrap_or(false),
+        // replace_font_usage changes default_font_page when a layer's default is the replaced page
+        "rfu" | "cfs" | "rmf" => st.get_buffer().layers.iter().any(|l| l.default_font_page == op.u(0)),
+        _ => false,
+    }
 }
 
 /// runs `ops` on a fresh document; returns Err(index) when the edit at `index` does not succeed
@@ -804,7 +1005,7 @@ fn run_once(spec: &Spec, ops: &[Op], oracle_tail: bool, want_hashes: bool) -> Re
         let len_before = st.undo_stack_len();
         let (culprit, feats) = if is_edit(name) { (record_type(&st, &op), features(&st, &op)) } else { (String::new(), Vec::new()) };
         let top_level = guards.is_empty();
-        if (name == "su" || name == "sd") && culprit == "UndoLayerChange(area)" {
+        if outside_model(&st, &op) {
             tr.unmodelled = true;
         }
         let res = exec_op(&mut st, &mut guards, &op);
@@ -816,9 +1017,10 @@ fn run_once(spec: &Spec, ops: &[Op], oracle_tail: bool, want_hashes: bool) -> Re
             Res::EditFail(_) => {
                 if idx < ops.len() {
                     // the steps executed so far plus the edit that did not succeed
+                    // (no must-fail case for the model when the prefix left the modelled fragment)
                     let mut pre = tr.steps.clone();
                     pre.push(op.clone());
-                    return Err((idx, pre));
+                    return Err((idx, if tr.unmodelled { Vec::new() } else { pre }));
                 }
                 // the oracle's own probe edit failed (cannot happen: resize_buffer(false) never fails); ignore
                 idx += 1;
@@ -827,6 +1029,11 @@ fn run_once(spec: &Spec, ops: &[Op], oracle_tail: bool, want_hashes: bool) -> Re
             _ => {}
         }
         tr.steps.push(op.clone());
+        // the descriptions of the stack tops must be obtainable in every state
+        if let Err(p) = catch(AssertUnwindSafe(|| (st.undo_description(), st.redo_description(), st.can_undo()))) {
+            tr.failure = Some(Failure { kind: "description-panic".into(), culprit: culprit.clone(), features: vec![], what: format!("undo_description/redo_description panicked in {}", panic_site(&p)), step: step_no });
+            break;
+        }
         let len_after = st.undo_stack_len();
         tr.max_stack = tr.max_stack.max(len_after);
         let snap = doc_snap(&st);
@@ -954,7 +1161,7 @@ fn run_history(spec: &Spec, want_hashes: bool) -> (Vec<Op>, Trace, Vec<Vec<Op>>)
         match run_once(spec, &ops, true, want_hashes) {
             Ok(tr) => return (ops, tr, failed_prefixes),
             Err((i, pre)) => {
-                if failed_prefixes.len() < 2 {
+                if failed_prefixes.len() < 2 && !pre.is_empty() {
                     failed_prefixes.push(pre);
                 }
                 ops.remove(i);
@@ -1138,12 +1345,14 @@ fn minimise(spec: &Spec, f: &Failure) -> (Spec, Failure) {
 // ---------------------------------------------------------------------------------------------- generators
 
 const MODELLED: &[&str] = &[
-    "cl", "cp", "sc", "sci", "sw", "al", "rl", "ra", "lo", "du", "tv", "mv", "sls", "rb", "dr", "ir", "dc", "ic", "cll", "ss", "cs", "ds", "fx", "fy", "su", "sd", "rbl", "cr",
-    "crr", "mt", "u", "r", "ga", "ge", "mm",
+    "cl", "clp", "cp", "ca", "mm", "sc", "sci", "sw", "al", "rl", "ra", "lo", "du", "cll", "mg", "an", "tv", "mv", "sls", "ulp", "rot", "mt", "st", "pa", "afl", "rb", "rbl",
+    "cr", "crr", "ss", "ssa", "cs", "ds", "asm", "inv", "er", "erow", "erows", "erowe", "ecol", "ecols", "ecole", "dr", "ir", "dc", "ic", "fx", "fy", "jl",
+    "jr", "ce", "jll", "jlr", "cel", "su", "sd", "sl", "sr", "sfp", "saf", "ssf", "sf", "aaf", "af", "rfu", "cfs", "rmf", "ice", "spal", "usd", "ucp", "prv",
+    "es", "pm", "psx", "cpd", "u", "r", "ga", "ge",
 ];
 
 fn modelled(spec: &Spec) -> bool {
-    spec.fm == 0 && spec.ops.iter().all(|o| MODELLED.contains(&o.name.as_str()))
+    spec.ops.iter().all(|o| MODELLED.contains(&o.name.as_str()))
 }
 
 fn gen_doc(rng: &mut Rng, plain: bool) -> Spec {
@@ -1153,13 +1362,14 @@ fn gen_doc(rng: &mut Rng, plain: bool) -> Spec {
     let mut layers = Vec::new();
     for i in 0..n {
         let full = i == 0 && rng.chance(2, 3);
-        let w = if full { bw } else { rng.range(1, 6) as i32 };
-        let h = if full { bh } else { rng.range(1, 5) as i32 };
+        let w = if full { bw } else if rng.chance(1, 12) { 0 } else { rng.range(1, 6) as i32 };
+        let h = if full { bh } else if rng.chance(1, 12) { 0 } else { rng.range(1, 5) as i32 };
         let mut l = LayerSpec { w, h, ox: 0, oy: 0, flags: 0, rw: w, rh: h, seed: rng.range(0, 40) as u32 };
         if !plain {
             if !full && rng.chance(1, 2) {
-                l.ox = rng.range(-2, 3) as i32;
-                l.oy = rng.range(-2, 3) as i32;
+                // negative offsets, partly or wholly outside the buffer
+                l.ox = rng.range(-3, bw as i64 + 1) as i32;
+                l.oy = rng.range(-3, bh as i64 + 1) as i32;
             }
             if i > 0 || rng.chance(1, 3) {
                 l.flags |= 8;
@@ -1205,7 +1415,13 @@ fn gen_op(rng: &mut Rng, spec: &Spec, names: &[&str]) -> Op {
         "cl" => vec![li],
         "cp" => vec![pick_i(rng, w), pick_i(rng, h)],
         "mm" => vec![rng.range(0, 1)],
-        "sc" => vec![pick_i(rng, w), pick_i(rng, h), rng.range(65, 84), rng.range(0, 15), rng.range(0, 7)],
+        "sc" => {
+            // now and then the characters and colours set_ice_mode / rotate_layer treat specially, other font pages, blink
+            let ch = if rng.chance(1, 4) { *rng.pick(&[0, 32, 176, 177, 178, 179, 191, 196, 219, 220, 221, 222, 223, 255]) } else { rng.range(65, 84) };
+            let bg = if rng.chance(1, 3) { rng.range(8, 15) } else { rng.range(0, 7) };
+            let page = if rng.chance(1, 5) { *rng.pick(&[1, 2, 100]) } else { 0 };
+            vec![pick_i(rng, w), pick_i(rng, h), ch, rng.range(0, 15), bg, page, if rng.chance(1, 5) { 8 } else { 0 }]
+        }
         "sci" => vec![pick_i(rng, w), pick_i(rng, h)],
         "sw" => vec![pick_i(rng, w), pick_i(rng, h), pick_i(rng, w), pick_i(rng, h)],
         "al" | "rl" | "ra" | "lo" | "du" | "cll" | "mg" | "tv" => vec![li],
@@ -1225,6 +1441,10 @@ fn gen_op(rng: &mut Rng, spec: &Spec, names: &[&str]) -> Op {
         "rfu" | "cfs" => vec![*rng.pick(&[0, 1, 2, 100]), *rng.pick(&[0, 1, 2, 100, 101])],
         "rmf" => vec![*rng.pick(&[0, 1, 2, 100])],
         "ulp" => vec![li, rng.range(0, 63)],
+        "es" => vec![rng.range(0, 1)],
+        "ca" => vec![rng.range(0, 15), rng.range(0, 15), rng.range(0, 1)],
+        "psx" => vec![rng.range(1, 20), rng.range(1, 40)],
+        "prv" => vec![rng.range(0, 9), rng.range(0, 7)],
         _ => vec![],
     };
     Op::new(name, &a)
@@ -1234,6 +1454,7 @@ const ALL_OPS: &[&str] = &[
     "cl", "cl", "cp", "cp", "mm", "sc", "sc", "sc", "sci", "sw", "al", "rl", "ra", "lo", "du", "cll", "mg", "tv", "mv", "sls", "sls", "rb", "rbl", "cr", "crr", "ss", "ss", "ssa", "cs",
     "ds", "asm", "inv", "er", "fx", "fy", "jl", "jr", "ce", "jll", "jlr", "cel", "dr", "ir", "dc", "ic", "erow", "erows", "erowe", "ecol", "ecols", "ecole", "su", "sd", "sl", "sr",
     "rot", "mt", "st", "pa", "an", "afl", "ice", "pm", "spal", "usd", "sfp", "saf", "aaf", "ssf", "af", "sf", "rfu", "cfs", "rmf", "ulp", "ucp", "u", "u", "r", "ga", "ge",
+    "es", "cpd", "prv", "u", "r", "ga", "ge", "sc", "sls", "ca",
 ];
 
 const MODEL_OPS: &[&str] = &[
@@ -1241,14 +1462,17 @@ const MODEL_OPS: &[&str] = &[
     "fy", "su", "sd", "rbl", "cr", "crr", "mt", "u", "u", "r", "ga", "ge", "mm",
 ];
 
-/// reduced alphabet with boundary parameters for the exhaustive short histories
+/// the full operation alphabet with boundary parameters for the exhaustive short histories
 fn exhaustive_alphabet() -> Vec<Op> {
     let mut v = Vec::new();
     let o = |n: &str, a: &[i64]| Op::new(n, a);
+    // cells
     v.push(o("sc", &[0, 0, 70, 3, 1]));
-    v.push(o("sc", &[2, 2, 71, 4, 2]));
+    v.push(o("sc", &[2, 2, 219, 4, 10, 1, 8]));
     v.push(o("sci", &[1, 1]));
     v.push(o("sw", &[0, 0, 2, 1]));
+    v.push(o("mm", &[1]));
+    // layers
     v.push(o("al", &[0]));
     v.push(o("rl", &[0]));
     v.push(o("ra", &[0]));
@@ -1260,42 +1484,84 @@ fn exhaustive_alphabet() -> Vec<Op> {
     v.push(o("mv", &[1, -1]));
     v.push(o("sls", &[0, 2, 1]));
     v.push(o("sls", &[0, 5, 5]));
+    v.push(o("ulp", &[0, 18]));
+    v.push(o("ulp", &[0, 35]));
+    v.push(o("rot", &[]));
+    v.push(o("mt", &[]));
+    v.push(o("st", &[]));
+    v.push(o("cl", &[1]));
+    v.push(o("cl", &[0]));
+    // buffer
     v.push(o("rb", &[2, 2]));
     v.push(o("rbl", &[2, 2]));
+    v.push(o("cr", &[]));
+    v.push(o("crr", &[1, 0, 2, 2]));
+    v.push(o("prv", &[5, 1]));
+    // selection
     v.push(o("ss", &[1, 0, 2, 2]));
     v.push(o("ss", &[0, 0, 9, 9]));
-    v.push(o("cr", &[]));
+    v.push(o("ssa", &[0, 1, 2, 1, 2, 0]));
+    v.push(o("ssa", &[0, 0, 3, 1, 1, 1]));
     v.push(o("cs", &[]));
+    v.push(o("ds", &[]));
     v.push(o("asm", &[]));
     v.push(o("inv", &[]));
+    v.push(o("es", &[0]));
+    v.push(o("es", &[1]));
+    // area operations
     v.push(o("er", &[]));
     v.push(o("fx", &[]));
     v.push(o("fy", &[]));
     v.push(o("jl", &[]));
     v.push(o("jr", &[]));
     v.push(o("ce", &[]));
-    v.push(o("cp", &[1, 1]));
-    v.push(o("cp", &[3, 3]));
-    v.push(o("dr", &[]));
-    v.push(o("ir", &[]));
-    v.push(o("dc", &[]));
-    v.push(o("ic", &[]));
+    v.push(o("jll", &[]));
+    v.push(o("jlr", &[]));
+    v.push(o("cel", &[]));
     v.push(o("su", &[]));
     v.push(o("sd", &[]));
     v.push(o("sl", &[]));
     v.push(o("sr", &[]));
-    v.push(o("rot", &[]));
-    v.push(o("mt", &[]));
-    v.push(o("st", &[]));
-    v.push(o("pa", &[2, 2, 1, 0, 5]));
-    v.push(o("an", &[]));
-    v.push(o("ice", &[1]));
-    v.push(o("pm", &[2]));
-    v.push(o("cl", &[1]));
-    v.push(o("cl", &[0]));
     v.push(o("erow", &[]));
+    v.push(o("erows", &[]));
+    v.push(o("erowe", &[]));
     v.push(o("ecol", &[]));
+    v.push(o("ecols", &[]));
+    v.push(o("ecole", &[]));
+    // caret, rows and columns
+    v.push(o("cp", &[1, 1]));
+    v.push(o("cp", &[3, 3]));
+    v.push(o("ucp", &[]));
+    v.push(o("dr", &[]));
+    v.push(o("ir", &[]));
+    v.push(o("dc", &[]));
+    v.push(o("ic", &[]));
+    // paste
+    v.push(o("pa", &[2, 2, 1, 0, 5]));
+    v.push(o("clp", &[]));
+    v.push(o("an", &[]));
+    v.push(o("afl", &[]));
+    v.push(o("cpd", &[]));
+    // modes, palette, fonts, SAUCE
+    v.push(o("ice", &[1]));
+    v.push(o("ice", &[2]));
+    v.push(o("pm", &[2]));
+    v.push(o("spal", &[3]));
+    v.push(o("usd", &[2]));
+    v.push(o("sfp", &[1]));
+    v.push(o("saf", &[5]));
+    v.push(o("aaf", &[1]));
+    v.push(o("ssf", &[1]));
+    v.push(o("af", &[2]));
+    v.push(o("sf", &[2]));
+    v.push(o("rfu", &[1, 2]));
+    v.push(o("cfs", &[1, 0]));
+    v.push(o("rmf", &[1]));
+    // stacks
+    v.push(o("ga", &[]));
+    v.push(o("ge", &[]));
     v.push(o("u", &[]));
+    v.push(o("r", &[]));
     v
 }
 
@@ -1321,15 +1587,11 @@ fn one(run: &mut Run, stats: &mut Stats, spec: &Spec, tie: bool) {
     if want && !tr.unmodelled {
         // the model runs the same steps (history + oracle tail) and must produce the same per-step hashes
         let full = Spec { ops: tr.steps.clone(), ..spec.clone() };
-        run.case(&format!("undo run {}", full.fmt()), &tr.hashes.join(" "));
+        run.case(&format!("undo run {}", full.fmt_model()), &tr.hashes.join(" "));
         for p in failed_prefixes {
-            // (whether scroll_area_up/down takes the modelled whole-layer path depends on the state: not used as must-fail cases)
-            if matches!(p.last().map(|o| o.name.as_str()), Some("su") | Some("sd")) {
-                continue;
-            }
             // an edit that did not succeed must not succeed in the model either
             let ps = Spec { ops: p, ..spec.clone() };
-            run.case(&format!("undo fails {}", ps.fmt()), "F");
+            run.case(&format!("undo fails {}", ps.fmt_model()), "F");
         }
     } else {
         run.evaluations += 1;
@@ -1375,18 +1637,18 @@ pub fn run(run: &mut Run, seed: u64, thorough: bool, replay: Option<&str>, corpu
     let alpha = exhaustive_alphabet();
     let docs = [
         "D,4,3,0;L,4,3,0,0,0,4,3,1",
-        "D,4,3,0;L,4,3,0,0,0,4,3,1;L,3,2,1,1,8,3,2,2",
-        "D,4,3,0;L,3,3,0,0,0,4,4,3;L,3,2,-1,0,24,3,2,4;L,2,2,1,1,10,2,2,5",
+        "D,4,3,3;L,4,3,0,0,0,4,3,1;L,3,2,1,1,8,3,2,2",
+        "D,4,3,2;L,3,3,0,0,0,4,4,3;L,3,2,-1,0,24,3,2,4;L,2,2,1,1,10,2,2,5",
     ];
     let depth = if thorough { 3 } else { 2 };
     for (di, d) in docs.iter().enumerate() {
         let base = Spec::parse(d).unwrap();
         let n = alpha.len();
         let total = (0..depth).fold(1usize, |a, _| a * n);
-        // depth 3 on all three documents is 3 x 51^3 = 400k histories: thorough runs depth 3 on the first document and
-        // a seeded third of the triples on the others
+        // depth 3 on all three documents is 3 x 88^3 = 2M histories: thorough runs every triple on the first document and
+        // a seeded ninth of the triples on the others
         for code in 0..total {
-            if depth == 3 && di > 0 && rng.below(3) != 0 {
+            if depth == 3 && di > 0 && rng.below(9) != 0 {
                 continue;
             }
             let mut c = code;
@@ -1420,9 +1682,17 @@ pub fn run(run: &mut Run, seed: u64, thorough: bool, replay: Option<&str>, corpu
         let len = if i % 3 == 0 { rng.range(1, 8) } else { rng.range(4, 40) };
         for _ in 0..len {
             let op = gen_op(&mut rng, &spec, ALL_OPS);
+            let pasted = matches!(op.name.as_str(), "pa" | "psx" | "cpd");
             spec.ops.push(op);
+            if pasted && rng.chance(2, 3) {
+                // the usual continuation of a paste: select the floating layer, then anchor / float / move / stamp it
+                spec.ops.push(Op::new("clp", &[]));
+                let next = *rng.pick(&["afl", "an", "mv", "st", "afl", "an"]);
+                let op2 = gen_op(&mut rng, &spec, &[next]);
+                spec.ops.push(op2);
+            }
         }
-        one(run, &mut stats, &spec, false);
+        one(run, &mut stats, &spec, true);
     }
     if std::env::var("VERIF_C08_TIMING").is_ok() {
         eprintln!("run_once calls {}", RUNS.with(|r| r.get()));
